@@ -37,11 +37,12 @@ var combos8 = []variant{vPlain, vInline, vSwitch, vBoth, vNoast, vNI, vNS, vNB}
 
 // config = variant + run-time options of the generated parser.
 type config struct {
-	name string
-	v    variant
-	memo bool
-	size int
-	u    string
+	name   string
+	v      variant
+	memo   bool
+	size   int
+	u      string
+	pretty bool
 }
 
 type entry struct {
@@ -97,6 +98,7 @@ type family struct {
 	variantSeed bool // print grammars with random spelling variants (C10's monitor 1 rides along)
 	batch       int
 	stdout      bool
+	stateCode   func(cs *gcase) func(int) string
 	noexec      bool
 	// judge is called once per (case, entry) with the reference evaluation and the results by config name.
 	judge func(cs *gcase, e entry, it *ref.Interp, refOK bool, refEnd int, res map[string]*corpus.Res)
@@ -151,7 +153,11 @@ func (f *family) runBatch(peg string, cases []*gcase, vs []variant, bno int) {
 			if f.variantSeed {
 				vr = rand.New(rand.NewSource(f.c.env.Seed*1000003 + int64(cs.id)*31 + int64(len(v.name))))
 			}
-			text := gram.PrintGrammar(cs.g, cs.printOpts(pkg, vr))
+			po := cs.printOpts(pkg, vr)
+			if f.stateCode != nil {
+				po.StateCode = f.stateCode(cs)
+			}
+			text := gram.PrintGrammar(cs.g, po)
 			if v.name == vs[0].name {
 				cs.text = text
 			}
@@ -202,7 +208,7 @@ func (f *family) runBatch(peg string, cases []*gcase, vs []variant, bno int) {
 					continue // under -inline only the first rule is guaranteed to have a slot
 				}
 				where[key{ci, ei, cfi}] = len(reqs)
-				reqs = append(reqs, corpus.Req{Pkg: pkgName(cs.id, cf.v), Entry: e.rule, In: []byte(e.input), Memo: cf.memo, Size: cf.size, U: cf.u, Stdout: f.stdout, NoExec: f.noexec})
+				reqs = append(reqs, corpus.Req{Pkg: pkgName(cs.id, cf.v), Entry: e.rule, In: []byte(e.input), Memo: cf.memo, Size: cf.size, U: cf.u, Pretty: cf.pretty, Stdout: f.stdout, NoExec: f.noexec})
 			}
 		}
 	}
